@@ -25,6 +25,7 @@ THEOREMS = [
     "Gwcs.Sel.dict_nan",
     "Gwcs.Sel.scatter_gather_eq",
     "Gwcs.Sel.selector_pointwise",
+    "Gwcs.Sel.selectorEvalBy_eq",
     "Gwcs.Sel.set_input_lookup",
 ]
 RULE = ("cases: label arrays up to 9x11 (int and str labels) with points at cell centres, on cell boundaries, one ulp either side, beyond the far "
